@@ -510,9 +510,70 @@ func runC15Unusable(r *ev.Run, c c15UnusableCase) {
 	r.Eval(fmt.Sprintf("unusable|%s|%q|%d|%s", c.Mech, c.Pass, c.Attempts, c.Via), true)
 }
 
+// c15WarmOtherPassword runs one honest, complete exchange per hash for the same account name, salt and iteration count
+// as the explored cases, but with the password "another-password" (the account's former password, say) and an Auth
+// value of its own. Whatever the client keeps from it must not help a server that only knows that password later on
+// (symbol Vk).
+func c15WarmOtherPassword(r *ev.Run) {
+	for _, mech := range []string{"SCRAM-SHA-256", "SCRAM-SHA-1"} {
+		hname, _ := c15Hash(mech)
+		ok := false
+		handler := func(io refsmtp.AuthIO, m string, initial []byte, has bool) refsmtp.Action {
+			x := sasl.NewScram(sasl.ScramConfig{Hash: hname, User: c15User, Password: []byte("another-password"), Salt: []byte("verif-salt-0123"), Iterations: 64, ServerNonce: "WarmNonce0123456789"})
+			first := initial
+			if !has || len(initial) == 0 {
+				resp, cancel, err := io.Challenge(nil)
+				if err != nil || cancel {
+					return actAborted
+				}
+				first = resp
+			}
+			if x.ParseClientFirst(first) != nil {
+				return actBadCreds
+			}
+			resp, cancel, err := io.Challenge(x.ServerFirst())
+			if err != nil || cancel {
+				return actAborted
+			}
+			if v, _ := x.VerifyClientFinal(resp); !v {
+				return actBadCreds
+			}
+			if _, cancel, err = io.Challenge(x.ServerFinal()); err != nil || cancel {
+				return actAborted
+			}
+			ok = true
+			return refsmtp.Action{}
+		}
+		farm := &refsmtp.Farm{NewConfig: func(int) *refsmtp.Config {
+			return &refsmtp.Config{AllowUTF8: true, Auth: handler, Caps: func(int, bool) []string { return []string{"AUTH " + mech} }}
+		}}
+		conn, err := farm.Dial(context.Background(), "tcp", "")
+		if err != nil {
+			r.HarnessError(err.Error())
+			return
+		}
+		_ = conn.SetDeadline(time.Now().Add(15 * time.Second))
+		sc, err := smtp.NewClient(conn, netHost)
+		if err == nil {
+			var a smtp.Auth = smtp.ScramSHA1Auth(c15User, "another-password")
+			if mech == "SCRAM-SHA-256" {
+				a = smtp.ScramSHA256Auth(c15User, "another-password")
+			}
+			err = sc.Auth(a)
+		}
+		_ = conn.Close()
+		farm.Shutdown()
+		if err != nil || !ok {
+			r.HarnessError(fmt.Sprintf("C15 warm-up exchange (%s) did not complete: %v", mech, err))
+			return
+		}
+		r.Count("warm_up_exchanges_with_another_password", 1)
+	}
+}
+
 func runC15(r *ev.Run, rep *ev.ReplayDoc) ev.Summary {
 	sum := ev.Summary{
-		Rule: "exhaustive adaptive server message sequences over the alphabet {valid server-first, server-first with foreign / truncated nonce, malformed server-first, server-first with iteration count 0, valid server-final, server-final signed with an all-zero key, empty verifier, verifier of extensions only, valid signature with trailing bytes, server-final of another key, of another exchange, over empty client state, server-error (e=...), empty challenge, junk, 235, 535} up to length 5 (quick: 4), explored as an execution tree (a branch is extended only while the client is still inside the exchange), for SCRAM-SHA-1, SCRAM-SHA-256 and both -PLUS variants (TLS 1.2 and 1.3), through mail.Client and directly through smtp.Client.Auth. 'valid' symbols are computed from what the client actually sent. Plus: passwords the SCRAM password preparation refuses, one smtp.Auth value used for three exchanges against a server that does not know the password and signs with the empty one. non-trivial = script deviates from the honest sequence; distinct by (mechanism, script)",
+		Rule: "exhaustive adaptive server message sequences over the alphabet {valid server-first, server-first with foreign / truncated nonce, malformed server-first, server-first with iteration count 0, valid server-final, server-final signed with an all-zero key, empty verifier, verifier of extensions only, valid signature with trailing bytes, server-final of another key, of another exchange, over empty client state, server-error (e=...), empty challenge, junk, 235, 535} up to length 5 (quick: 4), explored as an execution tree (a branch is extended only while the client is still inside the exchange), for SCRAM-SHA-1, SCRAM-SHA-256 and both -PLUS variants (TLS 1.2 and 1.3), through mail.Client and directly through smtp.Client.Auth. 'valid' symbols are computed from what the client actually sent. Before the exploration the process completes one honest exchange per hash for the same account, salt and iteration count with another password (another Auth value). Plus: passwords the SCRAM password preparation refuses, one smtp.Auth value used for three exchanges against a server that does not know the password and signs with the empty one. non-trivial = script deviates from the honest sequence; distinct by (mechanism, script)",
 		Assumptions: []string{
 			"the honest sequence is: empty challenge -> client-first, server-first, client-final, server-final, empty acknowledgement, 235",
 			"success may only be reported if a valid server-final for the running exchange was acknowledged before the final reply",
@@ -524,6 +585,7 @@ func runC15(r *ev.Run, rep *ev.ReplayDoc) ev.Summary {
 		r.HarnessError("sasl self-test: " + err.Error())
 		return sum
 	}
+	c15WarmOtherPassword(r)
 	if rep != nil {
 		var u c15UnusableCase
 		if err := json.Unmarshal(rep.Case, &u); err == nil && u.Attempts > 0 {
